@@ -6,6 +6,11 @@
 //! oracle (independent of the model): `render_to_rgba(original) == render_to_rgba(optimised)` byte for byte,
 //! same size, with and without whitespace normalisation — on small random documents and on a sweep over the
 //! full glyph range of every built-in font.
+//!
+//! Since the C12 work package: documents may carry an ice mode (`flat_clone` copies it, nothing reads it) and SIXELS
+//! (second loop of `render_to_rgba`; the flat clone has none — `coloropt sdoc`), fonts built through the REAL loaders
+//! (PSF2 files of width 6 / 8 / 9 / 12, clean / stray padding bits / non-blank space), and a writer family
+//! (`c12w.rs`): every format writer of the FORMATS table through `Buffer::to_bytes` with and without `lossles_output`.
 use crate::c13::sample_hb;
 use crate::doc::*;
 use crate::util::*;
@@ -23,6 +28,49 @@ pub enum FontRef {
     /// NOT a built-in font: ANSI page n declared 6 pixels wide, glyph 219 = 0b1111_0011 per row
     /// (6 set bits per row = width, two of them outside the width)
     StrayBits(usize),
+    /// NOT a built-in font: a PSF2 FILE of the given pixel width made from ANSI page `base` and loaded with
+    /// `BitFont::from_bytes`; variant 0 = padding bits clear and blank ' ' (FontOk by `loaded_font_ok`),
+    /// 1 = glyph 219 with `width` set bits per row two of which are padding bits (width < 8 only), 2 = ' ' not blank
+    Psf2 { w: u8, base: usize, variant: u8 },
+}
+
+/// PSF2 file bytes: `charsize = height * ceil(width / 8)`; for width > 8 the loader still cuts `height` bytes per glyph
+/// (twice as many glyphs) — the data is laid out so that glyph i < 256 is the base font's glyph i
+pub fn psf2_bytes(w: u8, base: usize, variant: u8) -> Vec<u8> {
+    let f = BitFont::from_ansi_font_page(base).unwrap();
+    let h = f.size.height as usize;
+    let per_row = (w as usize + 7) / 8;
+    let mut data = Vec::new();
+    for ch in 0..256u32 {
+        let g = f.get_glyph(char::from_u32(ch).unwrap()).unwrap();
+        for cy in 0..h {
+            let mut b = g.data[cy];
+            if w < 8 {
+                b &= 0xFFu8 << (8 - w);
+            }
+            if variant == 1 && ch == 219 && w < 8 && w >= 2 {
+                // `w` set bits: the two rightmost in-range columns cleared, the two rightmost padding bits set
+                b = ((0xFFu8 << (8 - w)) & !(0b11u8 << (8 - w))) | 0b11;
+            }
+            if variant == 2 && ch == 32 {
+                b = f.get_glyph('!').unwrap().data[cy];
+                if w < 8 {
+                    b &= 0xFFu8 << (8 - w);
+                }
+                if b == 0 && cy == 0 {
+                    b = 0x80;
+                }
+            }
+            data.push(b);
+        }
+    }
+    data.resize(256 * h * per_row, 0);
+    let mut out = Vec::new();
+    for v in [0x864a_b572u32, 0, 32, 0, 256, (h * per_row) as u32, h as u32, w as u32] {
+        out.extend(v.to_le_bytes());
+    }
+    out.extend(data);
+    out
 }
 
 impl FontRef {
@@ -44,10 +92,16 @@ impl FontRef {
                 f.glyphs.insert(219 as char, icy_engine::Glyph { data: vec![0xF3; h] });
                 f
             }
+            FontRef::Psf2 { w, base, variant } => BitFont::from_bytes("psf2", &psf2_bytes(w, base, variant)).unwrap(),
         }
     }
-    fn is_builtin(self) -> bool {
-        !matches!(self, FontRef::SpaceNotBlank(_) | FontRef::StrayBits(_))
+    pub fn is_builtin(self) -> bool {
+        !matches!(self, FontRef::SpaceNotBlank(_) | FontRef::StrayBits(_) | FontRef::Psf2 { .. })
+    }
+    /// `FontOk` holds by a theorem (built-in: `builtin_font_ok`; loaded PSF2 with clear padding bits and blank ' ':
+    /// `loaded_font_ok`), so the property is claimed
+    pub fn font_ok(self) -> bool {
+        self.is_builtin() || matches!(self, FontRef::Psf2 { variant: 0, .. })
     }
     fn code(self) -> (i64, i64) {
         match self {
@@ -56,6 +110,7 @@ impl FontRef {
             FontRef::Viewdata => (2, 0),
             FontRef::SpaceNotBlank(p) => (3, p as i64),
             FontRef::StrayBits(p) => (4, p as i64),
+            FontRef::Psf2 { w, base, variant } => (5, w as i64 * 1000 + variant as i64 * 100 + base as i64),
         }
     }
     fn of(kind: i64, idx: i64) -> Option<FontRef> {
@@ -65,6 +120,9 @@ impl FontRef {
             2 => Some(FontRef::Viewdata),
             3 if BitFont::from_ansi_font_page(idx as usize).is_ok() => Some(FontRef::SpaceNotBlank(idx as usize)),
             4 if BitFont::from_ansi_font_page(idx as usize).is_ok() => Some(FontRef::StrayBits(idx as usize)),
+            5 if (1..=16).contains(&(idx / 1000)) && idx % 1000 / 100 <= 2 && BitFont::from_ansi_font_page((idx % 100) as usize).is_ok() => {
+                Some(FontRef::Psf2 { w: (idx / 1000) as u8, base: (idx % 100) as usize, variant: (idx % 1000 / 100) as u8 })
+            }
             _ => None,
         }
     }
@@ -78,11 +136,34 @@ pub struct Doc {
     pub fonts: Vec<(usize, FontRef)>,
     pub pal: Vec<(u32, u8, u8, u8)>,
     pub layers: Vec<LayerSpec>,
+    /// 0 = Unlimited (what `Buffer::new` sets), 1 = Blink, 2 = Ice
+    pub ice: u8,
+    pub sixels: Vec<SixelSpec>,
+}
+
+/// one `Sixel` on layer `layer`: position in cells, size in pixels, `picture_data[i] = (a * i + b) % 256` for `i < len`
+#[derive(Clone, Debug, PartialEq, Eq)]
+pub struct SixelSpec {
+    pub layer: usize,
+    pub px: i32,
+    pub py: i32,
+    pub w: i32,
+    pub h: i32,
+    pub a: u8,
+    pub b: u8,
+    pub len: usize,
+}
+
+impl SixelSpec {
+    pub fn data(&self) -> Vec<u8> {
+        (0..self.len).map(|i| ((self.a as usize * i + self.b as usize) % 256) as u8).collect()
+    }
 }
 
 impl Doc {
-    fn encode(&self) -> Vec<i64> {
-        let mut v = vec![1, self.is_term as i64, self.w as i64, self.h as i64, self.fonts.len() as i64];
+    pub fn encode(&self) -> Vec<i64> {
+        let ext = self.ice != 0 || !self.sixels.is_empty();
+        let mut v = vec![if ext { 2 } else { 1 }, self.is_term as i64, self.w as i64, self.h as i64, self.fonts.len() as i64];
         for (s, f) in &self.fonts {
             let (k, i) = f.code();
             v.extend([*s as i64, k, i]);
@@ -95,12 +176,19 @@ impl Doc {
         for l in &self.layers {
             l.encode(&mut v);
         }
+        if ext {
+            v.extend([self.ice as i64, self.sixels.len() as i64]);
+            for s in &self.sixels {
+                v.extend([s.layer as i64, s.px as i64, s.py as i64, s.w as i64, s.h as i64, s.a as i64, s.b as i64, s.len as i64]);
+            }
+        }
         v
     }
-    fn decode(s: &str) -> Option<Doc> {
+    pub fn decode(s: &str) -> Option<Doc> {
         let v = parse_ints(s)?;
         let mut it = v.into_iter();
-        if it.next()? != 1 {
+        let version = it.next()?;
+        if version != 1 && version != 2 {
             return None;
         }
         let is_term = it.next()? != 0;
@@ -119,14 +207,49 @@ impl Doc {
         for _ in 0..it.next()? {
             layers.push(LayerSpec::decode(&mut it)?);
         }
-        Some(Doc { is_term, w, h, fonts, pal, layers })
+        let (mut ice, mut sixels) = (0u8, Vec::new());
+        if version == 2 {
+            ice = it.next()? as u8;
+            for _ in 0..it.next()? {
+                let s = SixelSpec {
+                    layer: it.next()? as usize,
+                    px: it.next()? as i32,
+                    py: it.next()? as i32,
+                    w: it.next()? as i32,
+                    h: it.next()? as i32,
+                    a: it.next()? as u8,
+                    b: it.next()? as u8,
+                    len: it.next()? as usize,
+                };
+                if s.layer >= layers.len() || s.w < 0 || s.h < 0 || s.w > 64 || s.h > 64 || s.len > 20000 {
+                    return None;
+                }
+                sixels.push(s);
+            }
+        }
+        Some(Doc { is_term, w, h, fonts, pal, layers, ice, sixels })
     }
-    fn input(&self) -> String {
+    pub fn input(&self) -> String {
         join(&self.encode(), ",")
     }
-    fn build(&self) -> Buffer {
+    pub fn build(&self) -> Buffer {
+        let mut buf = self.build_text();
+        for s in &self.sixels {
+            let mut six = icy_engine::Sixel::from_data((s.w, s.h), 1, 1, s.data());
+            six.position = (s.px, s.py).into();
+            buf.layers[s.layer].sixels.push(six);
+        }
+        buf
+    }
+    /// the document without its sixels
+    pub fn build_text(&self) -> Buffer {
         let mut buf = Buffer::new((self.w, self.h));
         buf.is_terminal_buffer = self.is_term;
+        buf.ice_mode = match self.ice {
+            1 => icy_engine::IceMode::Blink,
+            2 => icy_engine::IceMode::Ice,
+            _ => icy_engine::IceMode::Unlimited,
+        };
         buf.clear_font_table();
         for (slot, f) in &self.fonts {
             buf.set_font(*slot, f.load());
@@ -142,19 +265,44 @@ impl Doc {
     }
 }
 
+type Img = Result<(icy_engine::Size, Vec<u8>), String>;
+
 struct Obs {
     cells: Result<Vec<CellSpec>, String>,
+    /// same buffer size, one layer, same ice mode
     size_same: bool,
-    orig: Result<(icy_engine::Size, Vec<u8>), String>,
-    opt: Result<(icy_engine::Size, Vec<u8>), String>,
+    /// sixels left in the optimised buffer (the model says: none)
+    n_sixels_opt: usize,
+    /// `render_to_rgba` of the document as it is (both loops)
+    orig: Img,
+    /// … of the document without its sixels (= `orig` when it has none)
+    text: Img,
+    opt: Img,
 }
 
-fn observe(buf: &Buffer, norm: bool) -> Obs {
+/// how the property is judged on a document
+#[derive(Clone, Copy, PartialEq, Eq)]
+pub enum Judge {
+    /// inside the property's quantifier: a panic is a failure too
+    Quantifier,
+    /// outside the quantifier but covered by a theorem (`FontOk` proved for a loaded font): original and optimised
+    /// buffer must render alike, incl. panicking alike
+    Proved,
+    Off,
+}
+
+fn observe(doc: &Doc, buf: &Buffer, norm: bool) -> Obs {
     let mut so = SaveOptions::default();
     so.normalize_whitespaces = norm;
     let orig = catch(AssertUnwindSafe(|| buf.render_to_rgba(buf.get_rectangle())));
+    let text = if doc.sixels.is_empty() {
+        orig.clone()
+    } else {
+        let t = doc.build_text();
+        catch(AssertUnwindSafe(|| t.render_to_rgba(t.get_rectangle())))
+    };
     match catch(AssertUnwindSafe(|| ColorOptimizer::new(buf, &so).optimize(buf))) {
-        Err(e) => Obs { cells: Err(e.clone()), size_same: true, orig, opt: Err(e) },
+        Err(e) => Obs { cells: Err(e.clone()), size_same: true, n_sixels_opt: 0, orig, text, opt: Err(e) },
         Ok(o) => {
             let mut cells = Vec::new();
             for y in 0..buf.get_height() {
@@ -163,33 +311,43 @@ fn observe(buf: &Buffer, norm: bool) -> Obs {
                 }
             }
             let opt = catch(AssertUnwindSafe(|| o.render_to_rgba(o.get_rectangle())));
-            Obs { cells: Ok(cells), size_same: o.get_size() == buf.get_size() && o.layers.len() == 1, orig, opt }
+            Obs {
+                cells: Ok(cells),
+                size_same: o.get_size() == buf.get_size() && o.layers.len() == 1 && o.ice_mode == buf.ice_mode,
+                n_sixels_opt: o.layers.iter().map(|l| l.sixels.len()).sum(),
+                orig,
+                text,
+                opt,
+            }
         }
     }
 }
 
-fn hash(r: &Result<(icy_engine::Size, Vec<u8>), String>) -> String {
+fn hash(r: &Img) -> String {
     match r {
         Ok((_, b)) => fnv(b.iter().map(|b| *b as u64)).to_string(),
         Err(_) => "panic".to_string(),
     }
 }
 
-/// the property itself on the implementation; returns the keys of the failures found
-fn oracle(run: &mut Run, doc: &Doc, buf: &Buffer, obs: &Obs, norm: bool, input: &str, in_quantifier: bool) {
-    if !in_quantifier {
+/// the property itself on the implementation: the optimised buffer renders to the picture of the cells of the original
+/// (`text`: for a document of the quantifier that IS `render_to_rgba` of the original)
+fn oracle(run: &mut Run, doc: &Doc, buf: &Buffer, obs: &Obs, norm: bool, input: &str, judge: Judge) {
+    if judge == Judge::Off {
         return;
     }
-    let (orig, opt) = match (&obs.orig, &obs.opt) {
+    let (orig, opt) = match (&obs.text, &obs.opt) {
         (Ok(a), Ok(b)) => (a, b),
+        (Err(_), Err(_)) if judge == Judge::Proved && obs.cells.is_ok() => return, // both renderings panic alike (font wider than 8)
         (a, b) => {
             let e = a.as_ref().err().or(b.as_ref().err()).unwrap();
-            run.oracle_fail(&format!("panic:{}", panic_site(e)), input, &format!("optimise/render panicked on a document of the quantifier (normalize_whitespaces={})", norm));
+            let key = if judge == Judge::Proved { "panic_differs".to_string() } else { format!("panic:{}", panic_site(e)) };
+            run.oracle_fail(&key, input, &format!("optimise/render panicked on a document the property covers (normalize_whitespaces={}): original {} optimised {}", norm, hash(a), hash(b)));
             return;
         }
     };
     if !obs.size_same || orig.0 != opt.0 || orig.1.len() != opt.1.len() {
-        run.oracle_fail("size_differs", input, &format!("optimised buffer has another size: image {:?} vs {:?}", orig.0, opt.0));
+        run.oracle_fail("size_differs", input, &format!("optimised buffer has another size / layer count / ice mode: image {:?} vs {:?}", orig.0, opt.0));
         return;
     }
     if orig.1 == opt.1 {
@@ -205,15 +363,17 @@ fn oracle(run: &mut Run, doc: &Doc, buf: &Buffer, obs: &Obs, norm: bool, input: 
         let (py, px) = (i / line, (i % line) / 4);
         let (x, y) = ((px as i32) / fs.width, (py as i32) / fs.height);
         let c = buf.get_char((x, y));
+        // the two sites repaired in flat_clone keep their keys (known_findings.txt `fixed:` lines): a regression shows up
+        // under the old name
         let key = if c.is_visible() && (c.attribute.get_foreground() == TRANSPARENT || c.attribute.get_background() == TRANSPARENT) {
             "flat_clone_resolves_transparent"
         } else if !c.is_visible() && c.get_font_page() != 0 {
             "flat_clone_invisible_font_page"
         } else {
-            // a font that is not one of the built-in ones (outside the quantifier, see `FontRef`)
             match doc.fonts.iter().find(|(s, _)| *s == c.get_font_page()).map(|(_, f)| *f) {
-                Some(FontRef::SpaceNotBlank(_)) => "custom_font_space_not_blank",
-                Some(FontRef::StrayBits(_)) => "custom_font_stray_bits",
+                Some(FontRef::SpaceNotBlank(_)) | Some(FontRef::Psf2 { variant: 2, .. }) => "custom_font_space_not_blank",
+                Some(FontRef::StrayBits(_)) | Some(FontRef::Psf2 { variant: 1, .. }) => "custom_font_stray_bits",
+                Some(FontRef::Psf2 { .. }) => "loaded_font_render_differs",
                 _ => "render_differs",
             }
         };
@@ -287,22 +447,52 @@ fn correspond(run: &mut Run, doc: &Doc, buf: &Buffer, obs: &Obs, norm: bool) {
         Ok(cs) => cs.iter().map(|c| c.show()).collect::<Vec<_>>().join(" "),
         Err(_) => "panic".to_string(),
     };
-    run.case(&format!("coloropt doc {}", join(&op, " ")), &format!("{}|{} {}", cells, hash(&obs.orig), hash(&obs.opt)));
+    if doc.sixels.is_empty() {
+        run.case(&format!("coloropt doc {}", join(&op, " ")), &format!("{}|{} {}", cells, hash(&obs.orig), hash(&obs.opt)));
+    } else {
+        // second loop of render_to_rgba: the sixels (layer, position, size, data generator) follow the layers
+        // in the order the renderer walks them: layer by layer, within a layer in insertion order
+        let mut sixels: Vec<&SixelSpec> = doc.sixels.iter().collect();
+        sixels.sort_by_key(|s| s.layer);
+        op.push(sixels.len() as i64);
+        for s in sixels {
+            op.extend([s.layer as i64, s.px as i64, s.py as i64, s.w as i64, s.h as i64, s.a as i64, s.b as i64, s.len as i64]);
+        }
+        run.case(
+            &format!("coloropt sdoc {}", join(&op, " ")),
+            &format!("{}|{} {} {} sixels={}", cells, hash(&obs.orig), hash(&obs.text), hash(&obs.opt), obs.n_sixels_opt),
+        );
+    }
 }
 
-fn one(run: &mut Run, doc: &Doc, in_quantifier: bool, tie: bool) {
+fn one(run: &mut Run, doc: &Doc, judge: Judge, tie: bool) {
     let buf = doc.build();
     let input = doc.input();
     for norm in [false, true] {
-        let obs = observe(&buf, norm);
+        let obs = observe(doc, &buf, norm);
         if tie {
             correspond(run, doc, &buf, &obs, norm);
         }
-        oracle(run, doc, &buf, &obs, norm, &input, in_quantifier);
+        oracle(run, doc, &buf, &obs, norm, &input, judge);
     }
     run.nontrivial(fnv(doc.encode().into_iter().map(|x| x as u64)));
     run.count(&format!("layers={}", doc.layers.len()));
     run.count(&format!("fonts={}", doc.fonts.len()));
+    run.count(&format!("ice={}", doc.ice));
+    if !doc.sixels.is_empty() {
+        run.count(&format!("sixels={}", doc.sixels.len()));
+    }
+}
+
+/// how a decoded document (replay / corpus / known finding) is judged: by its fonts
+fn judge_of(doc: &Doc) -> Judge {
+    if doc.fonts.iter().all(|(_, f)| f.is_builtin()) {
+        Judge::Quantifier
+    } else if doc.fonts.iter().all(|(_, f)| f.font_ok()) {
+        Judge::Proved
+    } else {
+        Judge::Off
+    }
 }
 
 fn all_fonts() -> Vec<FontRef> {
@@ -358,7 +548,7 @@ fn rand_cell(rng: &mut Rng, pages: &[usize], transparent: bool) -> CellSpec {
 
 /// a document of the quantifier; `plain` = no transparent-colour cells, default font page 0 (the part of the
 /// quantifier on which the property is expected to hold on the pinned tree)
-fn rand_doc(rng: &mut Rng, fonts_all: &[FontRef], plain: bool) -> Doc {
+pub fn rand_doc(rng: &mut Rng, fonts_all: &[FontRef], plain: bool) -> Doc {
     let w = rng.range(1, 6) as i32;
     let h = rng.range(1, 3) as i32;
     let mut fonts = vec![(0usize, *rng.pick(fonts_all))];
@@ -391,7 +581,7 @@ fn rand_doc(rng: &mut Rng, fonts_all: &[FontRef], plain: bool) -> Doc {
             rows,
         });
     }
-    Doc { is_term: rng.chance(1, 2), w, h, fonts, pal, layers }
+    Doc { is_term: rng.chance(1, 2), w, h, fonts, pal, layers, ice: *rng.pick(&[0u8, 0, 1, 2]), sixels: Vec::new() }
 }
 
 /// one opaque layer holding the full glyph range of one built-in font with seeded colour pairs
@@ -418,7 +608,7 @@ fn sweep_doc(rng: &mut Rng, font: FontRef, second: FontRef) -> Doc {
         })
         .collect();
     let layer = LayerSpec { visible: true, alpha: false, mode: 0, ox: 0, oy: 0, w, h, dflt: 0, rows };
-    Doc { is_term: rng.chance(1, 2), w, h, fonts: vec![(0, font), (1, second)], pal: Vec::new(), layers: vec![layer] }
+    Doc { is_term: rng.chance(1, 2), w, h, fonts: vec![(0, font), (1, second)], pal: Vec::new(), layers: vec![layer], ice: 0, sixels: Vec::new() }
 }
 
 fn font_summary(run: &mut Run, f: FontRef) {
@@ -449,18 +639,55 @@ fn font_summary(run: &mut Run, f: FontRef) {
     run.count("font-summary");
 }
 
+/// 1..=3 sixels on random layers: inside, partly outside (left / above / right / below), empty, with too little data
+fn add_sixels(rng: &mut Rng, d: &mut Doc) {
+    for _ in 0..rng.range(1, 3) {
+        let (w, h) = match rng.below(8) {
+            0 => (0, rng.range(0, 6) as i32),
+            1 => (rng.range(0, 6) as i32, 0),
+            _ => (rng.range(1, 20) as i32, rng.range(1, 24) as i32),
+        };
+        let full = (w * h * 4) as usize;
+        let len = match rng.below(10) {
+            0 => full.saturating_sub(rng.range(1, 9) as usize),
+            1 => full + rng.range(1, 9) as usize,
+            _ => full,
+        };
+        d.sixels.push(SixelSpec {
+            layer: rng.below(d.layers.len() as u64) as usize,
+            px: if rng.chance(1, 8) { -1 } else { rng.range(0, d.w as i64) as i32 },
+            py: if rng.chance(1, 6) { rng.range(-2, -1) as i32 } else { rng.range(0, d.h as i64) as i32 },
+            w,
+            h,
+            a: *rng.pick(&[1u8, 3, 7, 251]),
+            b: rng.next() as u8,
+            len,
+        });
+    }
+}
+
 pub fn run(run: &mut Run, seed: u64, thorough: bool, replay: Option<&str>, corpus: &[String]) {
-    if let Some(r) = replay {
-        match Doc::decode(r.trim()) {
-            Some(d) => one(run, &d, true, true),
-            None => eprintln!("c12: cannot decode replay input"),
+    let replay_one = |run: &mut Run, r: &str| {
+        let r = r.trim();
+        let wkind = [("9,", 0u8), ("8,", 1), ("7,", 2)].iter().find(|(p, _)| r.starts_with(p)).copied();
+        if let Some((pfx, kind)) = wkind {
+            match Doc::decode(&r[pfx.len()..]) {
+                Some(d) => crate::c12w::one(run, &d, kind),
+                None => eprintln!("c12: cannot decode writer-family input"),
+            }
+        } else {
+            match Doc::decode(r) {
+                Some(d) => one(run, &d, judge_of(&d), true),
+                None => eprintln!("c12: cannot decode input"),
+            }
         }
+    };
+    if let Some(r) = replay {
+        replay_one(run, r);
         return;
     }
     for c in corpus {
-        if let Some(d) = Doc::decode(c) {
-            one(run, &d, true, true);
-        }
+        replay_one(run, c);
     }
     let fonts = all_fonts();
     // the regenerated font summaries against the compiled crate, every built-in font
@@ -471,17 +698,17 @@ pub fn run(run: &mut Run, seed: u64, thorough: bool, replay: Option<&str>, corpu
     let mut rng = Rng::new(seed);
     let same16: Vec<FontRef> = fonts.iter().copied().filter(|f| f.load().size == icy_engine::Size::new(8, 16)).collect();
     // documents of the quantifier without transparent-colour cells / non-zero default font pages
-    for i in 0..(if thorough { 20000 } else { 2000 }) {
+    for i in 0..(if thorough { 20000 } else { 1500 }) {
         let pool = if i % 3 == 0 { &fonts } else { &same16 };
         let d = rand_doc(&mut rng, pool, true);
-        one(run, &d, true, true);
+        one(run, &d, Judge::Quantifier, true);
         run.count("doc:plain");
     }
-    // documents with transparent-colour cells and default font pages: the two recorded findings live here
-    for i in 0..(if thorough { 6000 } else { 500 }) {
+    // documents with transparent-colour cells and default font pages (the two repaired sites of flat_clone live here)
+    for i in 0..(if thorough { 8000 } else { 700 }) {
         let pool = if i % 2 == 0 { &fonts } else { &same16 };
         let d = rand_doc(&mut rng, pool, false);
-        one(run, &d, true, true);
+        one(run, &d, Judge::Quantifier, true);
         run.count("doc:transparent/default-page");
     }
     // full glyph range of every built-in font page (oracle only: 256 cells x 2 settings per font)
@@ -492,13 +719,52 @@ pub fn run(run: &mut Run, seed: u64, thorough: bool, replay: Option<&str>, corpu
                 continue;
             }
             let d = sweep_doc(&mut rng, *f, second);
-            one(run, &d, true, rep == 0 && i % 20 == (seed % 20) as usize);
+            one(run, &d, Judge::Quantifier, rep == 0 && i % 20 == (seed % 20) as usize);
             run.count("doc:full-glyph-range");
         }
     }
-    // outside the quantifier, but reachable through font loaders: fonts that are not `FontOk` — a non-blank
-    // ' ' (normalisation target) and a font narrower than 8 with set bits outside its width.  The oracle is
-    // applied; its failures carry their own keys (recorded findings).
+    // sixels: the second loop of render_to_rgba on the original (correspondence), and the property on the cells: the
+    // optimised buffer (no sixels) renders to the picture of the document without its sixels
+    for i in 0..(if thorough { 3000 } else { 250 }) {
+        let pool = if i % 4 == 0 { &fonts } else { &same16 };
+        let mut d = rand_doc(&mut rng, pool, i % 2 == 0);
+        add_sixels(&mut rng, &mut d);
+        one(run, &d, Judge::Quantifier, true);
+        run.count("doc:sixels");
+    }
+    // fonts out of the real loader (PSF2 files of width 6 / 8 / 9 / 12), in slot 0 or next to a built-in font 0:
+    // variant 0 is FontOk by `loaded_font_ok` (property claimed, also "both panic" for a wide font 0); variants 1 / 2 are
+    // the converse witnesses (correspondence only; how often the picture really changes is counted)
+    for i in 0..(if thorough { 1500 } else { 150 }) {
+        let mut d = rand_doc(&mut rng, &same16, i % 3 != 0);
+        let w = *rng.pick(&[6u8, 6, 8, 9, 12, 4]);
+        let variant = if i % 2 == 0 { 0 } else { *rng.pick(&[1u8, 2]) };
+        let variant = if variant == 1 && w >= 8 { 2 } else { variant };
+        let f = FontRef::Psf2 { w, base: *rng.pick(&[0usize, 0, 5, 20]), variant };
+        let slot = if rng.chance(1, 2) { 0 } else { 1 };
+        d.fonts = if slot == 0 { vec![(0, f)] } else { vec![(0, *rng.pick(&same16)), (1, f)] };
+        for l in d.layers.iter_mut() {
+            l.dflt = if rng.chance(1, 4) { slot } else { 0 };
+            for c in l.rows.iter_mut().flatten().flatten() {
+                c.page = if rng.chance(2, 3) { slot } else { 0 };
+                if rng.chance(1, 3) {
+                    c.ch = *rng.pick(&[0u32, 255, 219, 32]);
+                }
+            }
+        }
+        let judge = if variant == 0 { Judge::Proved } else { Judge::Off };
+        one(run, &d, judge, true);
+        run.count(&format!("doc:loaded-psf2:w={}:variant={}", w, variant));
+        if variant != 0 {
+            let buf = d.build();
+            let o = observe(&d, &buf, true);
+            if let (Ok(a), Ok(b)) = (&o.text, &o.opt) {
+                run.count(if a.1 == b.1 { "loaded-psf2:not-FontOk:picture-same" } else { "loaded-psf2:not-FontOk:picture-CHANGED" });
+            }
+        }
+    }
+    // outside the quantifier, hand-made fonts that are not `FontOk` — a non-blank ' ' (normalisation target) and a font
+    // narrower than 8 with set bits outside its width: correspondence only
     for i in 0..(if thorough { 300 } else { 30 }) {
         let mut d = rand_doc(&mut rng, &same16, true);
         let base = rng.below(32) as usize;
@@ -512,12 +778,11 @@ pub fn run(run: &mut Run, seed: u64, thorough: bool, replay: Option<&str>, corpu
                 }
             }
         }
-        // outside the property's quantifier (built-in fonts only): correspondence only, no oracle
-        one(run, &d, false, true);
+        one(run, &d, Judge::Off, true);
         run.count("doc:custom-font-not-FontOk");
     }
     // outside the quantifier (correspondence only): a cell naming a font page that is not in the table, a code
-    // point without glyph — `unwrap()` on the shape map
+    // point without glyph — `unwrap()` on the shape map (`optimize_defined_iff`)
     for _ in 0..(if thorough { 200 } else { 20 }) {
         let mut d = rand_doc(&mut rng, &same16, true);
         let l = rng.below(d.layers.len() as u64) as usize;
@@ -528,8 +793,10 @@ pub fn run(run: &mut Run, seed: u64, thorough: bool, replay: Option<&str>, corpu
                 r[0] = Some(bad);
             }
         }
-        one(run, &d, false, true);
+        one(run, &d, Judge::Off, true);
         run.count("doc:missing-font-or-glyph");
     }
+    // every format writer through Buffer::to_bytes, default (optimised) against lossless output
+    crate::c12w::family(run, &mut rng, thorough, &fonts, &same16);
     run.extra.push(("builtin_fonts".into(), fonts.len().to_string()));
 }
